@@ -281,9 +281,8 @@ def main(tier, seed):
                     back = got[en.name]["#reverse"].get(str(val))
                     if back != vn:
                         bad(b, en.name, vn, "JS: value %d received from Rust converts to %r instead of %s" % (val, back, vn))
-        # ---- Dart (interpreted)
-        out = tool("dart")
-        if out:
+        def dart_check(out, enums):
+            """interpret the generated Dart enum declarations and the conversions the use sites (Hub.t<k>) pick"""
             res["st"]["interpreted_dart"] += 1
             hub = open(os.path.join(out, "Hub.g.dart")).read()
             for k, en in enumerate(enums):
@@ -316,6 +315,47 @@ def main(tier, seed):
                         back = next((v for v in variants if sw.get(v) == val), None)
                     if back != dn:
                         bad("dart", en.name, vn, "Dart converts received value %d to %r instead of %s (via %s)" % (val, back, dn, from_kind))
+        # ---- Dart (interpreted)
+        out = tool("dart")
+        if out:
+            dart_check(out, enums)
+        # ---- Dart: a second enum with the *identifier* of the first, declared in another bridge module and renamed (types are told apart by
+        # path, not by bare name: seed C11-h keyed the contiguity shortcut by identifier). The twin's numbering is of the other kind.
+        e0 = enums[0]
+        g2 = spec.Gen(random.Random("c11twin/%s/%s" % (seed, i)), name="tw")
+        contiguous0 = e0.values() == list(range(len(e0.variants)))
+        tw = g2.gen_enum(style=("gaps" if contiguous0 else "zero_contig"), n=max(2, len(e0.variants)))
+        if (tw.values() == list(range(len(tw.variants)))) != contiguous0:
+            import copy
+            e0c = copy.deepcopy(e0)
+            twc = spec.Enum(e0.name, tw.variants)
+            twc.lit_styles = {}
+            twc.attrs.append('#[diplomat::attr(*, rename = "Twin%s")]' % e0.name)
+            hub = spec.Opaque("Hub")
+            hub.methods.append(spec.Method("make", None, [("seed", ("prim", "u32"))], ("obox", "Hub", False)))
+            hub.methods.append(spec.Method("t0", ("ref", None), [("e", ("enum", e0.name))], ("enum", e0.name)))
+            hub.methods.append(spec.Method("t1", ("ref", None), [("e", ("raw", "crate::%s::%s" % ("aa_twin" if i % 2 else "zz_twin", e0.name)))], ("raw", "crate::%s::%s" % ("aa_twin" if i % 2 else "zz_twin", e0.name))))
+            p2 = spec.Program("tw")
+            m1, m2 = spec.Module("ffi"), spec.Module("aa_twin" if i % 2 else "zz_twin")
+            m1.items, m2.items = [e0c, hub], [twc]
+            m2.attrs.append('#[diplomat::abi_rename = "twin_{0}"]')
+            p2.modules = [m1, m2]
+            for t_ in (e0c, hub, twc):
+                for m_ in t_.methods:
+                    m_.owner = t_
+            e0c.methods = []
+            emit_rust.assign_abi_names(p2)
+            d2 = os.path.join(d, "twin")
+            os.makedirs(d2, exist_ok=True)
+            src2, cfg2 = tooltier.write_program(p2, d2, "")
+            rc, o, e = toolrun.run_tool("dart", src2, os.path.join(d2, "dart"), config_file=cfg2)
+            kind, det = toolrun.classify_tool(rc, e)
+            if kind != "ok":
+                res["inconc"].append("dart twin probe: tool %s %s" % (kind, str(det)[:150]))
+            else:
+                res["st"]["interpreted_dart"] += 1
+                shown = spec.Enum("Twin" + e0.name, tw.variants)
+                dart_check(os.path.join(d2, "dart"), [e0c, shown])
         # ---- Kotlin (interpreted)
         out = tool("kotlin")
         if out:
